@@ -548,6 +548,7 @@ func (rec EncRec) emit() [][]byte {
 	}
 	l.SetWriter(pool[1]).SetErrorWriter(pool[1]).SetUTCMode(true)
 	rec.warmUp()
+	historyPrelude(len(rec.Msg)*13 + len(rec.Attrs)*5 + rec.Cfg.Level*3 + rec.Cfg.MinWidth)
 	events = nil
 	pc := uintptr(0)
 	if c.Caller {
